@@ -50,9 +50,34 @@ func (s Step) String() string {
 // Inc is one process incarnation: the manager is started on the persistence directory, the
 // steps are executed, and the incarnation ends with a graceful Stop() or a scripted crash.
 type Inc struct {
-	Steps []Step `json:"steps"`
-	Down  []int  `json:"down"` // indices (0-based, per incarnation) of the transmissions that meet a closed port
-	End   string `json:"end"`  // graceful | crash
+	Steps  []Step     `json:"steps"`
+	Down   []int      `json:"down"` // indices (0-based, per incarnation) of the transmissions that meet a closed port
+	End    string     `json:"end"`  // graceful | crash
+	Phases *PhaseSpec `json:"phases,omitempty"`
+}
+
+// PhaseSpec scripts the outage of an incarnation per phase of its single session instead of per
+// transmission index. The phase of a transmission is decided from harness-side facts only (the
+// marker it passes, which transmissions the harness let through before, whether the script has
+// asked for the Stop yet):
+//
+//	A  the transmission made by StartSession itself
+//	B  a queue transmission while no transmission of the Start has been let through yet
+//	D  a transmission after the Start got through and before the Stop was asked for (interim
+//	   updates and their queue retries)
+//	C  a transmission after the Start got through and after the Stop was asked for (StopSession
+//	   or the shutdown drain): the Stop itself and its queue retries
+//
+// In every phase the first n transmissions meet a closed port, the following ones are answered.
+type PhaseSpec struct {
+	A int `json:"a"` // 0|1
+	B int `json:"b"`
+	C int `json:"c"`
+	D int `json:"d"`
+}
+
+func (p *PhaseSpec) String() string {
+	return fmt.Sprintf("A%d/B%d/D%d/C%d", p.A, p.B, p.D, p.C)
 }
 
 // ChildSpec is what one child process executes.
@@ -80,6 +105,7 @@ type JEv struct {
 	Err  string `json:"err,omitempty"`
 	SID  string `json:"sid,omitempty"`
 	VT   string `json:"vt,omitempty"` // virtual time offset
+	Ph   string `json:"ph,omitempty"` // req: phase of the transmission (phase-scripted incarnations)
 }
 
 // legitimate worst case is about 40: 3 starts, 3 stops, <= 18 interims, <= 6 refusals and their retries
@@ -101,6 +127,11 @@ type childState struct {
 	reqN   int
 	down   map[int]bool
 	fetchK map[string]int
+
+	// phase-scripted outages (spec.Inc.Phases != nil)
+	startThrough bool           // a transmission of the Start has been let through
+	stopAsked    bool           // the script has called StopSession / begun the graceful shutdown
+	phaseN       map[string]int // transmissions seen per phase
 
 	gate     sync.Mutex // held from X:before-send to X:after-send: transmissions are serialised so that the per-request outage script is exact
 	gateHeld bool       // written only by the holder / the goroutine releasing it
@@ -128,10 +159,29 @@ func (c *childState) hook(name string) {
 	c.occ[name] = occ + 1
 	var n int
 	var dn bool
+	var ph string
 	if before {
 		n = c.reqN
 		c.reqN++
 		dn = c.down[n]
+		if p := c.spec.Inc.Phases; p != nil {
+			var limit int
+			switch {
+			case name == "start:before-send":
+				ph, limit = "A", p.A
+			case !c.startThrough:
+				ph, limit = "B", p.B
+			case !c.stopAsked:
+				ph, limit = "D", p.D
+			default:
+				ph, limit = "C", p.C
+			}
+			dn = c.phaseN[ph] < limit
+			c.phaseN[ph]++
+			if !dn && (ph == "A" || ph == "B") {
+				c.startThrough = true
+			}
+		}
 	}
 	c.mu.Unlock()
 	if before {
@@ -140,7 +190,7 @@ func (c *childState) hook(name string) {
 		} else {
 			c.client.VerifC08SetServerPort(0, c.spec.AcctPort-1)
 		}
-		c.j(JEv{Ev: "req", I: n, Down: dn, Name: name})
+		c.j(JEv{Ev: "req", I: n, Down: dn, Name: name, Ph: ph})
 		if n >= maxTransmissionsPerIncarnation {
 			// a script of <= 6 steps over <= 3 sessions cannot legitimately need this many
 			// transmissions: something is being re-sent without end. Stop here so that the
@@ -273,6 +323,11 @@ func runIncarnation(spec *ChildSpec, cs *childState) {
 	time.Sleep(300 * time.Millisecond)
 
 	for i, st := range spec.Inc.Steps {
+		if st.K == "stop" {
+			cs.mu.Lock()
+			cs.stopAsked = true
+			cs.mu.Unlock()
+		}
 		cs.j(JEv{Ev: "step-begin", I: i, Name: st.String()})
 		var serr error
 		func() {
@@ -311,6 +366,9 @@ func runIncarnation(spec *ChildSpec, cs *childState) {
 			syscall.Pause()
 		}
 	default:
+		cs.mu.Lock()
+		cs.stopAsked = true
+		cs.mu.Unlock()
 		cs.j(JEv{Ev: "shutdown-begin"})
 		am.Stop()
 		cs.j(JEv{Ev: "shutdown-end"})
@@ -343,7 +401,7 @@ func TestC08Child(t *testing.T) {
 		fmt.Fprintln(os.Stderr, "c08 child:", err)
 		os.Exit(4)
 	}
-	cs := &childState{spec: &spec, jf: jf, occ: map[string]int{}, down: map[int]bool{}, fetchK: map[string]int{}}
+	cs := &childState{spec: &spec, jf: jf, occ: map[string]int{}, down: map[int]bool{}, fetchK: map[string]int{}, phaseN: map[string]int{}}
 	for _, n := range spec.Inc.Down {
 		cs.down[n] = true
 	}
